@@ -3097,3 +3097,82 @@ def compare(I, op, a, b):            # noqa: F811
 @lib("datetime.timedelta")
 def _timedelta(I, *a, **k):
     return Opaque("timedelta")
+
+
+# ------------------------------------------------ C07: calculus helpers
+@lib("numpy.errstate")
+def _np_errstate(I, **kw):
+    return Opaque("errstate")
+
+
+@lib("numpy.divide")
+def _np_divide(I, a, b, **kw):
+    return binop(I, ast.Div(), a, b)
+
+
+def deriv(t, x):
+    """d t / d x for a real term built from + - * / LOGF EXPF and constants
+    (sum, product, quotient, chain rules; each rule is a HasDerivAt lemma of
+    Mathlib).  Anything else is outside the differentiable subset."""
+    if t.eq(x):
+        return z3.RealVal(1)
+    if z3.is_rational_value(t) or z3.is_int_value(t):
+        return z3.RealVal(0)
+    if z3.is_const(t):
+        return z3.RealVal(0)          # another symbol: constant w.r.t. x
+    if z3.is_app(t):
+        k = t.decl().kind()
+        ch = t.children()
+        if k == z3.Z3_OP_ADD:
+            return z3.Sum(*[deriv(c, x) for c in ch])
+        if k == z3.Z3_OP_SUB:
+            out = deriv(ch[0], x)
+            for c in ch[1:]:
+                out = out - deriv(c, x)
+            return out
+        if k == z3.Z3_OP_UMINUS:
+            return -deriv(ch[0], x)
+        if k == z3.Z3_OP_MUL:
+            terms = []
+            for i, c in enumerate(ch):
+                rest = [q for j, q in enumerate(ch) if j != i]
+                prod = deriv(c, x)
+                for q in rest:
+                    prod = prod * q
+                terms.append(prod)
+            return z3.Sum(*terms)
+        if k == z3.Z3_OP_DIV:
+            u, v = ch
+            return (deriv(u, x) * v - u * deriv(v, x)) / (v * v)
+        if k == z3.Z3_OP_TO_REAL:
+            return z3.RealVal(0)
+        if t.decl().eq(LOGF):
+            return deriv(ch[0], x) / ch[0]
+        if t.decl().eq(EXPF):
+            return EXPF(ch[0]) * deriv(ch[0], x)
+    raise Unsupported(f"cannot differentiate {t}")
+
+
+def _mentions_result(t):
+    seen, stack = set(), [t]
+    while stack:
+        u = stack.pop()
+        if u.get_id() in seen:
+            continue
+        seen.add(u.get_id())
+        if z3.is_const(u) and u.decl().kind() == z3.Z3_OP_UNINTERPRETED \
+                and u.decl().name().startswith("ret."):
+            return True
+        if z3.is_app(u):
+            stack.extend(u.children())
+    return False
+
+
+@lib("spec.deriv")
+def _spec_deriv(I, t, x):
+    t = to_real(_val(t))
+    if _mentions_result(t):
+        # at a call site the callee's result is opaque: its derivative is
+        # not known from the expression (only from the closed-form clauses)
+        return I.fresh_const("unknown_derivative", z3.RealSort())
+    return z3.simplify(deriv(t, to_real(x)))
